@@ -1,6 +1,7 @@
 """C17 — scoped settings restore exactly and never leak across threads."""
 import itertools
 import threading
+import typing
 
 import pyglove as pg
 from hypothesis import strategies as st
@@ -151,7 +152,7 @@ def _args(m):
   if m in FLAGS:
     return st.sampled_from(list(FLAGS[m][3]))
   if m == 'ctx':
-    return st.fixed_dictionaries({'vars': _VARS, 'cascade': st.booleans()})
+    return st.fixed_dictionaries({'vars': _VARS, 'cascade': st.booleans(), 'oattrs': st.booleans()})
   if m in ('strfmt', 'reprfmt'):
     return st.dictionaries(st.sampled_from(['compact', 'verbose', 'k1', 'k2']), st.sampled_from([True, False, 1]), max_size=2)
   if m == 'view':
@@ -223,8 +224,10 @@ def expected(stack, glob):
       for k, val in a['vars'].items():
         if k in ctx and ctx[k][1]:
           continue          # an enclosing cascading override wins
-        ctx[k] = (val, bool(a['cascade']))
-  v['ctx'] = {k: x[0] for k, x in ctx.items()}
+        ctx[k] = (val, bool(a['cascade']), bool(a.get('oattrs')))
+  # the whole record of an override is the setting: value, cascade rule, whether bound attributes are overridden
+  v['ctx'] = {k: list(x) for k, x in ctx.items()}
+  v['ctx_attr'] = ctx['x'][0] if 'x' in ctx and ctx['x'][2] else 'own'
   for name in ('strfmt', 'reprfmt', 'codectx'):
     merged = {}
     for m, a in stack:
@@ -261,15 +264,29 @@ def expected(stack, glob):
   return v
 
 
+class _Component(pg.ContextualObject):
+  x: typing.Any = 0
+
+
+_COMPONENT = _Component(x='own')
+
+
 def probe():
   v = {}
   for name, (_, getter, _, _) in FLAGS.items():
     v[name] = getter()
-  v['ctx'] = dict(pg_utils.all_contextual_values())
+  values = dict(pg_utils.all_contextual_values())
+  v['ctx'] = {}
+  for k in values:
+    o = pg_utils.get_contextual_override(k)
+    v['ctx'][k] = [values[k], o.cascade, o.override_attrs] if o is not None else [values[k], None, None]
   for k in ('x', 'y', 'z'):
     got = pg_utils.contextual_value(k, None)
-    if (k in v['ctx'] and v['ctx'][k] != got) or (k not in v['ctx'] and got is not None):
+    o = pg_utils.get_contextual_override(k)
+    if (k in values and (values[k] != got or o is None or o.value != got)) or (k not in values and (got is not None or o is not None)):
       v['ctx']['!getter-disagrees:' + k] = got
+  # behaviour: a component whose attribute `x` is bound reads the override only if it overrides bound attributes
+  v['ctx_attr'] = _COMPONENT.x
   v['strfmt'] = str(_FMT)
   v['reprfmt'] = repr(_FMT)
   with pg.view_options() as o:
@@ -328,7 +345,7 @@ def enter(m, a):
   if m in FLAGS:
     return FLAGS[m][0](a)
   if m == 'ctx':
-    return pg.contextual_override(cascade=bool(a['cascade']), **a['vars'])
+    return pg.contextual_override(cascade=bool(a['cascade']), override_attrs=bool(a.get('oattrs')), **a['vars'])
   if m == 'strfmt':
     return pg.str_format(**a)
   if m == 'reprfmt':
@@ -437,7 +454,8 @@ class Runner:
       return
     want = normalise_expected(expected([], self.shared['glob']))
     if how == 'wrapped':
-      want['ctx'] = normalise_expected(expected(self.stack, self.shared['glob']))['ctx']
+      full = normalise_expected(expected(self.stack, self.shared['glob']))
+      want['ctx'], want['ctx_attr'] = full['ctx'], full['ctx_attr']
     got = out['v']
     skip = {'detour'} if any(m == 'wrappers' for m, _ in self.shared['glob']) else set()     # process-wide by documentation
     for k in want:
@@ -646,7 +664,8 @@ def _flag_nestings(tier):
 
 
 CANON = {
-    'ctx': [{'vars': {'x': 1}, 'cascade': False}, {'vars': {'x': 2, 'y': 1}, 'cascade': True}],
+    'ctx': [{'vars': {'x': 1}, 'cascade': False}, {'vars': {'x': 2, 'y': 1}, 'cascade': True},
+            {'vars': {'x': 3}, 'cascade': False, 'oattrs': True}],
     'strfmt': [{'compact': True}, {'k1': 1, 'verbose': False}],
     'reprfmt': [{'compact': False}, {'k2': 1}],
     'view': [{'o1': 1, 'nest': {'p': 1}}, {'nest': {'q': {'r': 2}}}, {'nest': 0}],
